@@ -57,6 +57,15 @@ def extract_hdf5_datasets(filename, memmap=True):
                 arrays[full_path] = Table.read(item, format='hdf5')
 
     file_handle.visititems(visitor)
+
+    # visititems always walks the file in alphabetical order. If the file
+    # keeps track of the order in which the top-level items were created,
+    # iterating over the file returns them in that order, so we use this to
+    # restore the original order (the sort is stable, so the order inside
+    # groups is unchanged).
+    top_level = dict((name, index) for index, name in enumerate(file_handle))
+    arrays = dict(sorted(arrays.items(), key=lambda item: top_level[item[0].split('/')[1]]))
+
     file_handle.close()
 
     # Now create memory-mapped arrays
